@@ -72,4 +72,61 @@ PROPS['C16'] = {
     'design_ref': '§6 C16',
 }
 
+PROPS['C01'] = {
+    'title': 'Committed values read back exactly, for every column type and offset',
+    'modules': ['ColumnVerif.Props.C01', 'ColumnVerif.Props.C01str'],
+    'runs': [{'mode': 'store'}],
+    'trusted_base': STORE_TB,
+    'assumptions': [
+        "theorems are per chunk pass (applyData over the chunk's ops in issue order, which C05 proves is what Range yields); the composition over buffers/chunks inside commit is exercised by the correspondence",
+        "guards = recorded findings: D10 (write+delete of one row), D11 (merge onto a slot occupied before), D12 (op after a resizing merge), D20 (enum hash collision); strings ≤ 65535 bytes",
+    ],
+    'level_text': "Lean theorems over the executable column model: for numeric, string, record and enum columns, after the chunk's pass every slot is the fold, in issue order, of the operations addressed to it (any merge function, any number of ops, offsets in any order); untouched offsets keep their content; the last Put decides; typed readers return the slot iff present; big-endian numeric bytes are bit-exact; missing chunk = panic (why D6 had to be repaired); counterexamples for D11/D12/D20. Tied to the code by differential histories over all 16 column kinds, boundary values, several chunks, late columns, all capacities, with a Go-side reference interpreter as implementation-only oracle.",
+    'technique': 'Lean 4 proof (fold semantics of the apply pass by induction over op lists) + model/implementation correspondence',
+    'design_ref': '§6 C01',
+}
+
+PROPS['C12'] = {
+    'title': 'Primary keys behave like a map from key to one row',
+    'modules': ['ColumnVerif.Props.C12'],
+    'runs': [{'mode': 'store'}],
+    'trusted_base': STORE_TB,
+    'assumptions': [
+        "KeyInv is preserved under the guard WFKeyOps (each Put's key is new or already this row's; Deletes hit present rows); outside it: findings D14 (duplicate key in one transaction) and the stale-delete observation, both with counterexample theorems",
+        "concurrent InsertKey of one key (check-then-insert not atomic) is finding D14's second facet; exercised by the scheduler, not proved absent",
+    ],
+    'level_text': "Lean theorems over the executable key-column model and the four key operations: KeyInv (the table maps exactly the keys of present rows to their rows; hence one live row per key and lookup reaches it) is preserved by every guarded op list (fresh insert, re-key with release of the old key, same-key overwrite, delete), the old key no longer resolves and can be inserted again; InsertKey fails iff the key resolves, UpsertKey updates the existing row or reserves exactly one offset and buffers the key, QueryKey/DeleteKey fail iff absent, noKey iff there is no key column; counterexamples for D14 and stale delete. Tied to the code by differential histories over a 6-letter key alphabet with a Go-side key-map oracle.",
+    'technique': 'Lean 4 proof (invariant by induction over op lists; decision logic stated outright) + model/implementation correspondence',
+    'design_ref': '§6 C12',
+}
+
+PROPS['C03'] = {
+    'title': 'Bitmap indexes always equal their predicate over the current values',
+    'modules': ['ColumnVerif.Props.C03'],
+    'runs': [{'mode': 'store'}],
+    'trusted_base': STORE_TB,
+    'assumptions': [
+        "IndexInv theorems are for numeric target columns with canonical Put ops (value of the column's width) and merge functions returning non-empty values; string targets follow the same pass but with the D12 guard (no op after a resizing merge) — exercised by the correspondence",
+        "the index rule is an arbitrary function of the op the reader shows (type, offset, value)",
+        "store-level registry plumbing (several computed columns per target, findCol/setCol) is exercised by the correspondence, the theorems are per (column, index) pair over mainPass/sections/back-fill",
+    ],
+    'level_text': "Lean theorems over the executable index model: the index bit of an offset is the fold of the Put/Delete ops addressed to it (rule on Put, clear on Delete); the main pass rewrites every Merge into a Put of the value stored right after it, so the computed pass hands the rule the merged value; IndexInv (bit ⇔ present ∧ rule(current value)) is preserved by a section pass, by marker sections, by the real commitUpdates order (main pass over all sections, then computed pass) and by the model's mainPass; the back-fill of CreateIndex establishes it for every committed chunk (index created after the data; restore uses the same pass). Tied to the code by differential histories with indexes created/dropped at any point and a Go-side oracle recomputing every index from the values read back.",
+    'technique': 'Lean 4 proof (invariant over op lists / sections / back-fill) + model/implementation correspondence',
+    'design_ref': '§6 C03',
+}
+
+PROPS['C19'] = {
+    'title': 'Triggers fire once per committed change, with the final value',
+    'modules': ['ColumnVerif.Props.C19'],
+    'runs': [{'mode': 'store'}],
+    'trusted_base': STORE_TB,
+    'assumptions': [
+        "final-value theorem is for numeric columns; for string/record columns a resizing merge is reported after the later ops of the section (finding D12)",
+        "rollback never reaches Apply (Store.rollback touches only the counter); create/drop mid-history is exercised by the correspondence",
+    ],
+    'level_text': "Lean theorems over the executable trigger model: the trigger is called exactly once per Put/Delete op of the (rewritten) section, in op order, never for Merge/Skip/Insert; per row the calls are the ops addressed to that row in issue order; combined with the rewriting lemma: for every Put or Merge the event carries the value stored right after that op (the merged value), for every Delete one delete event — exactly once each; same through mainPass. Tied to the code by differential histories with triggers created and dropped mid-history, rollbacks, several chunks, and a Go-side event oracle.",
+    'technique': 'Lean 4 proof (event log = image of the rewritten op list) + model/implementation correspondence',
+    'design_ref': '§6 C19',
+}
+
 ALL_IDS = ['C%02d' % i for i in range(1, 20)]
